@@ -14,7 +14,7 @@ open Goyang.Model.Parse
 open Goyang.Model.Utf8 (encodeChars)
 open Goyang.Spec.Parse
 open Goyang.Lemmas.QStr
-open Goyang.Lemmas.Utf8 (encodeChars_append encodeChars_eq_single)
+open Goyang.Lemmas.Utf8 (encodeChars_append encodeChars_eq_single encodeChars_inj_ascii)
 
 /-! ## the statements of the reference reader as statements of the model -/
 
@@ -657,5 +657,628 @@ theorem next_quoted (text : List Char) (file : List UInt8) (b : Bool) (f : Nat) 
     · right
       refine ⟨hc, v0, v, pushed, hv0, hsp, ?_, htk, hpe, htl.trans h8, hsh⟩
       rw [htx, encodeChars_append, hev0]
+
+/-! ## the optional argument and the token after it -/
+
+theorem patternKw_iff (kwc : List Char) :
+    decide (encodeChars kwc = Model.Parse.patternKw) = decide (kwc = Spec.Parse.patternKw) := by
+  have h : Model.Parse.patternKw = encodeChars Spec.Parse.patternKw := by decide
+  rw [h]
+  by_cases hk : kwc = Spec.Parse.patternKw
+  · simp [hk]
+  · have : encodeChars kwc ≠ encodeChars Spec.Parse.patternKw := by
+      intro he
+      exact hk (encodeChars_inj_ascii _ _ (by decide) he)
+    simp [hk, this]
+
+theorem tokCode_semi (t : Tok) : tokCode t = Code.punct 59 ↔ t = .semi := by
+  cases t <;> simp [tokCode]
+
+theorem tokCode_lbrace (t : Tok) : tokCode t = Code.punct 123 ↔ t = .lbrace := by
+  cases t <;> simp [tokCode]
+
+theorem tokCode_rbrace (t : Tok) : tokCode t = Code.punct 125 ↔ t = .rbrace := by
+  cases t <;> simp [tokCode]
+
+/-- the reference reader cannot finish the statement after this argument -/
+def SpecFail (text : List Char) (b : Bool) (ts : List PTok) : Prop :=
+  argument text b ts = none ∨ ∃ arg rest, argument text b ts = some (arg, rest) ∧ NoTerm rest
+
+/-- `fetchArg` against `argument` and the token that must follow -/
+theorem fetchArg_spec (text : List Char) (file : List UInt8) (kw : Token) (b : Bool)
+    (hb : decide (kw.text = Model.Parse.patternKw) = b) (f : Nat) (p : P) (ts : List PTok)
+    (hat : At text file p ts) (hf : ts.length + 1 ≤ f) (hadm : ∀ x ∈ ts, okTok x) :
+    (∃ arg e rest, argument text b ts = some (arg, e :: rest) ∧ (e.tok = .semi ∨ e.tok = .lbrace) ∧
+        (fetchArg LS kw f p).1 = (arg.isSome, encodeChars (arg.getD [])) ∧
+        (fetchArg LS kw f p).2.1 = some (conv text file e) ∧ At text file (fetchArg LS kw f p).2.2 rest ∧
+        (fetchArg LS kw f p).2.2.depth = p.depth ∧ (fetchArg LS kw f p).2.2.src.tail = p.src.tail) ∨
+    (Bad (fetchArg LS kw f p).2.2 ∧ SpecFail text b ts) ∨
+    (SpecFail text b ts ∧
+      ((fetchArg LS kw f p).2.1 = none ∨
+       ∃ T, (fetchArg LS kw f p).2.1 = some T ∧ T.code ≠ Code.punct 59 ∧ T.code ≠ Code.punct 123)) := by
+  unfold fetchArg
+  simp only
+  rw [hb]
+  cases ts with
+  | nil =>
+    obtain ⟨n1, n2, n3⟩ := next_nil text file b f p hat
+    rw [n1]
+    simp only
+    right; right
+    exact ⟨Or.inr ⟨none, [], by simp [argument], trivial⟩, Or.inl trivial⟩
+  | cons t ts' =>
+    cases hq : t.tok.isQuoted with
+    | false =>
+      obtain ⟨n1, n2, n3, n4⟩ := next_plain text file b f p t ts' hat hq
+      rw [n1]
+      simp only
+      by_cases hunq : (conv text file t).code = Code.unquoted
+      · obtain ⟨a, ha⟩ := (tokCode_unquoted t.tok).1 hunq
+        have harg : ∀ r, argument text b (t :: r) = some (some a, r) := by
+          intro r; simp [argument, ha]
+        rw [if_pos (by simp [hunq])]
+        cases ts' with
+        | nil =>
+          obtain ⟨m1, m2, m3⟩ := next_nil text file false f _ n2
+          right; right
+          exact ⟨Or.inr ⟨some a, [], harg [], trivial⟩, Or.inl m1⟩
+        | cons e ts'' =>
+          cases hqe : e.tok.isQuoted with
+          | false =>
+            obtain ⟨m1, m2, m3, m4⟩ := next_plain text file false f _ e ts'' n2 hqe
+            by_cases hterm : e.tok = .semi ∨ e.tok = .lbrace
+            · left
+              refine ⟨some a, e, ts'', harg _, hterm, ?_, m1, m2, m4.trans n4, m3.trans n3⟩
+              simp [conv, tokText, ha]
+            · right; right
+              have hnt : e.tok ≠ .semi ∧ e.tok ≠ .lbrace := by
+                constructor
+                · intro h; exact hterm (Or.inl h)
+                · intro h; exact hterm (Or.inr h)
+              refine ⟨Or.inr ⟨some a, e :: ts'', harg _, hnt⟩, Or.inr ⟨_, m1, ?_, ?_⟩⟩
+              · rw [conv_code]; intro h; exact hnt.1 ((tokCode_semi _).1 h)
+              · rw [conv_code]; intro h; exact hnt.2 ((tokCode_lbrace _).1 h)
+          | true =>
+            obtain ⟨T, m1, m2, m3, m4, m5, m6, m7, m8, m9, m10⟩ := next_quoted text file false f _ e ts'' n2 hqe
+              (by simp only [List.length_cons] at hf; omega) (fun x hx => hadm x (by simp [hx]))
+            have hnt : e.tok ≠ .semi ∧ e.tok ≠ .lbrace := by
+              cases hk : e.tok <;> simp [hk, Tok.isQuoted] at hqe <;> simp
+            have hsf : SpecFail text b (t :: e :: ts'') := Or.inr ⟨some a, e :: ts'', harg _, hnt⟩
+            right; right
+            exact ⟨hsf, Or.inr ⟨T, m1, by rw [m2]; simp, by rw [m2]; simp⟩⟩
+      · have hns : ¬ (conv text file t).code = Code.string := by
+          intro h; rw [conv_code, tokCode_string, hq] at h; cases h
+        rw [if_neg (by simp [hunq, hns])]
+        have harg : argument text b (t :: ts') = some (none, t :: ts') := by
+          rw [conv_code] at hunq
+          cases hk : t.tok <;> simp [hk, Tok.isQuoted, tokCode] at hq hunq <;> simp [argument, hk]
+        by_cases hterm : t.tok = .semi ∨ t.tok = .lbrace
+        · left
+          exact ⟨none, t, ts', harg, hterm, rfl, rfl, n2, n4, n3⟩
+        · right; right
+          have hnt : t.tok ≠ .semi ∧ t.tok ≠ .lbrace := by
+            constructor
+            · intro h; exact hterm (Or.inl h)
+            · intro h; exact hterm (Or.inr h)
+          refine ⟨Or.inr ⟨none, t :: ts', harg, hnt⟩, Or.inr ⟨_, rfl, ?_, ?_⟩⟩
+          · rw [conv_code]; intro h; exact hnt.1 ((tokCode_semi _).1 h)
+          · rw [conv_code]; intro h; exact hnt.2 ((tokCode_lbrace _).1 h)
+    | true =>
+      obtain ⟨T, n1, n2, n3, n4, n5, n6, n7, n8, n9, n10⟩ := next_quoted text file b f p t ts' hat hq
+        (by simp only [List.length_cons] at hf; omega) hadm
+      rw [n1]
+      simp only
+      rw [if_pos (by simp [n2])]
+      have hargq : ∀ v0 v rest, piece text b t = some v0 → concatTail text b ts' = some (v, rest) →
+          argument text b (t :: ts') = some (some (v0 ++ v), rest) := by
+        intro v0 v rest h1 h2
+        cases hk : t.tok <;> simp [hk, Tok.isQuoted] at hq <;> simp [argument, hk, h1, h2]
+      have hargn : piece text b t = none ∨ concatTail text b ts' = none → argument text b (t :: ts') = none := by
+        intro h
+        cases hk : t.tok <;> simp [hk, Tok.isQuoted] at hq
+        · rcases h with h | h
+          · simp [argument, hk, h]
+          · simp only [argument, hk, h]; split <;> simp_all
+        · rcases h with h | h
+          · simp [argument, hk, h]
+          · simp only [argument, hk, h]; split <;> simp_all
+      rcases n10 with ⟨hbad, hsp⟩ | ⟨hclean, v0, v, pushed, hv0, hct, hT, htk, hpe, htl, hsh⟩
+      · right; left
+        refine ⟨next_bad false f _ hbad, ?_⟩
+        rcases hsp with h | h | ⟨v, rest, h, hnt⟩
+        · exact Or.inl (hargn (Or.inl h))
+        · exact Or.inl (hargn (Or.inr h))
+        · cases hp : piece text b t with
+          | none => exact Or.inl (hargn (Or.inl hp))
+          | some v0 => exact Or.inr ⟨_, rest, hargq v0 v rest hp h, hnt⟩
+      · have harg := hargq v0 v _ hv0 hct
+        cases pushed with
+        | nil =>
+          have htoks := hpe rfl
+          have hat1 : At text file (next LS b f p).2 [] :=
+            ⟨by rw [htk]; rfl, htoks, hclean, n6, n8, n9⟩
+          obtain ⟨m1, m2, m3⟩ := next_nil text file false f _ hat1
+          right; right
+          refine ⟨Or.inr ⟨_, _, harg, ?_⟩, Or.inl m1⟩
+          rw [htoks]; trivial
+        | cons e pushed' =>
+          have hpop := next_pop false f (next LS b f p).2 (conv text file e) (pushed'.map (conv text file))
+            (by rw [htk]; rfl)
+          rw [hpop]
+          simp only
+          by_cases hterm : e.tok = .semi ∨ e.tok = .lbrace
+          · left
+            have hp' : pushed' = [] := by
+              cases pushed' with
+              | nil => rfl
+              | cons e2 r =>
+                have := hsh e e2 r rfl
+                rcases hterm with h | h <;> rw [h] at this <;> cases this
+            subst hp'
+            refine ⟨some (v0 ++ v), e, (next LS b f p).2.src.toks, harg, hterm, ?_, rfl, ?_, n7, htl⟩
+            · rw [hT]; rfl
+            · exact ⟨rfl, rfl, hclean, n6, n8, n9⟩
+          · right; right
+            have hnt : e.tok ≠ .semi ∧ e.tok ≠ .lbrace := by
+              constructor
+              · intro h; exact hterm (Or.inl h)
+              · intro h; exact hterm (Or.inr h)
+            refine ⟨Or.inr ⟨_, _, harg, hnt⟩, Or.inr ⟨_, rfl, ?_, ?_⟩⟩
+            · rw [conv_code]; intro h; exact hnt.1 ((tokCode_semi _).1 h)
+            · rw [conv_code]; intro h; exact hnt.2 ((tokCode_lbrace _).1 h)
+
+/-! ## the statement grammar case by case -/
+
+theorem stmt_not_unq (text : List Char) (g : Nat) (k : PTok) (ts : List PTok) (h : ∀ kw, k.tok ≠ .unq kw) :
+    stmt text g (k :: ts) = none := by
+  cases g with
+  | zero => simp [stmt]
+  | succ g =>
+    unfold stmt
+    split
+    · rename_i kw hk; exact absurd hk (h kw)
+    · rfl
+
+theorem stmt_fail (text : List Char) (g : Nat) (k : PTok) (kw : List Char) (ts : List PTok) (hk : k.tok = .unq kw)
+    (h : SpecFail text (decide (kw = Spec.Parse.patternKw)) ts) : stmt text g (k :: ts) = none := by
+  cases g with
+  | zero => simp [stmt]
+  | succ g =>
+    unfold stmt
+    simp only [hk]
+    rcases h with h | ⟨arg, rest, h, hnt⟩
+    · rw [h]
+    · rw [h]
+      simp only
+      cases rest with
+      | nil => rfl
+      | cons e r =>
+        simp only
+        rw [if_neg hnt.1, if_neg hnt.2]
+
+theorem stmt_semi (text : List Char) (g : Nat) (k : PTok) (kw : List Char) (ts : List PTok) (hk : k.tok = .unq kw)
+    (arg : Option (List Char)) (e : PTok) (rest : List PTok)
+    (h : argument text (decide (kw = Spec.Parse.patternKw)) ts = some (arg, e :: rest)) (he : e.tok = .semi) :
+    stmt text (g + 1) (k :: ts) =
+      some ({ keyword := kw, arg := arg, line := lineOf text k.off, col := colOf text k.off, subs := [] }, rest) := by
+  unfold stmt
+  simp only [hk, h, he, if_true]
+
+theorem stmt_block_some (text : List Char) (g : Nat) (k : PTok) (kw : List Char) (ts : List PTok)
+    (hk : k.tok = .unq kw) (arg : Option (List Char)) (e : PTok) (rest : List PTok)
+    (h : argument text (decide (kw = Spec.Parse.patternKw)) ts = some (arg, e :: rest)) (he : e.tok = .lbrace)
+    (subs : List Stmt) (c : PTok) (r' : List PTok) (hs : stmts text g rest = some (subs, c :: r'))
+    (hc : c.tok = .rbrace) :
+    stmt text (g + 1) (k :: ts) =
+      some ({ keyword := kw, arg := arg, line := lineOf text k.off, col := colOf text k.off, subs := subs }, r') := by
+  unfold stmt
+  simp only [hk, h, he, hs, hc, if_true]
+  simp
+
+theorem stmt_block_fail (text : List Char) (g : Nat) (k : PTok) (kw : List Char) (ts : List PTok)
+    (hk : k.tok = .unq kw) (arg : Option (List Char)) (e : PTok) (rest : List PTok)
+    (h : argument text (decide (kw = Spec.Parse.patternKw)) ts = some (arg, e :: rest)) (he : e.tok = .lbrace)
+    (hs : stmts text g rest = none ∨ ∃ ss, stmts text g rest = some (ss, [])) :
+    stmt text (g + 1) (k :: ts) = none := by
+  unfold stmt
+  simp only [hk, h, he]
+  rcases hs with hs | ⟨ss, hs⟩
+  · simp [hs]
+  · simp [hs]
+
+theorem stmts_nil (text : List Char) (g : Nat) : stmts text (g + 1) [] = some ([], []) := by
+  unfold stmts; rfl
+
+theorem stmts_rbrace (text : List Char) (g : Nat) (t : PTok) (ts : List PTok) (h : t.tok = .rbrace) :
+    stmts text (g + 1) (t :: ts) = some ([], t :: ts) := by
+  unfold stmts; simp [h]
+
+theorem stmts_cons_none (text : List Char) (g : Nat) (t : PTok) (ts : List PTok) (h : t.tok ≠ .rbrace)
+    (hs : stmt text g (t :: ts) = none) : stmts text (g + 1) (t :: ts) = none := by
+  rw [stmts]; simp [h, hs]
+
+theorem stmts_cons_none2 (text : List Char) (g : Nat) (t : PTok) (ts : List PTok) (h : t.tok ≠ .rbrace)
+    (s : Stmt) (r : List PTok) (hs : stmt text g (t :: ts) = some (s, r)) (hr : stmts text g r = none) :
+    stmts text (g + 1) (t :: ts) = none := by
+  rw [stmts]; simp [h, hs, hr]
+
+theorem stmts_cons_some (text : List Char) (g : Nat) (t : PTok) (ts : List PTok) (h : t.tok ≠ .rbrace)
+    (s : Stmt) (r : List PTok) (hs : stmt text g (t :: ts) = some (s, r)) (ss : List Stmt) (r' : List PTok)
+    (hr : stmts text g r = some (ss, r')) :
+    stmts text (g + 1) (t :: ts) = some (s :: ss, r') := by
+  rw [stmts]; simp [h, hs, hr]
+
+/-! ## how many tokens a statement takes -/
+
+theorem concatTail_suffix (text : List Char) (b : Bool) : ∀ (n : Nat) (ts : List PTok), ts.length ≤ n →
+    ∀ v rest, concatTail text b ts = some (v, rest) → rest <:+ ts := by
+  intro n
+  induction n with
+  | zero =>
+    intro ts h v rest hc
+    have : ts = [] := List.eq_nil_of_length_eq_zero (by omega)
+    subst this
+    simp [concatTail] at hc
+    rw [← hc.2]; exact List.suffix_refl _
+  | succ n ih =>
+    intro ts h v rest hc
+    cases ts with
+    | nil => simp [concatTail] at hc; rw [← hc.2]; exact List.suffix_refl _
+    | cons p ts1 =>
+      cases ts1 with
+      | nil => simp [concatTail] at hc; rw [← hc.2]; exact List.suffix_refl _
+      | cons q ts2 =>
+        by_cases hcond : (p.tok = .unq ['+'] && q.tok.isQuoted) = true
+        · simp only [concatTail, hcond, if_true] at hc
+          cases hp : piece text b q with
+          | none => simp [hp] at hc
+          | some s =>
+            cases hr : concatTail text b ts2 with
+            | none => simp [hp, hr] at hc
+            | some vr =>
+              obtain ⟨v', r'⟩ := vr
+              simp only [hp, hr, Option.some.injEq, Prod.mk.injEq] at hc
+              have := ih ts2 (by simp only [List.length_cons] at h; omega) v' r' hr
+              rw [← hc.2]
+              exact this.trans ((List.suffix_cons q ts2).trans (List.suffix_cons p _))
+        · simp only [concatTail, hcond, Bool.false_eq_true, if_false, Option.some.injEq, Prod.mk.injEq] at hc
+          rw [← hc.2]; exact List.suffix_refl _
+
+theorem argument_suffix (text : List Char) (b : Bool) (ts : List PTok) (arg : Option (List Char))
+    (rest : List PTok) (h : argument text b ts = some (arg, rest)) : rest <:+ ts := by
+  cases ts with
+  | nil => simp [argument] at h; rw [← h.2]; exact List.suffix_refl _
+  | cons t ts' =>
+    have hq : ∀ (hp : Option (List Char)),
+        (match hp, concatTail text b ts' with
+          | some s, some (s', r) => some (some (s ++ s'), r)
+          | _, _ => none) = some (arg, rest) → rest <:+ t :: ts' := by
+      intro hp h
+      cases hp with
+      | none => simp at h
+      | some s =>
+        cases hc : concatTail text b ts' with
+        | none => simp [hc] at h
+        | some vr =>
+          obtain ⟨v', r'⟩ := vr
+          simp only [hc, Option.some.injEq, Prod.mk.injEq] at h
+          have := concatTail_suffix text b _ ts' (Nat.le_refl _) _ _ hc
+          rw [← h.2]; exact this.trans (List.suffix_cons t ts')
+    cases hk : t.tok with
+    | unq a => simp [argument, hk] at h; rw [← h.2]; exact List.suffix_cons t ts'
+    | sq s0 => simp only [argument, hk] at h; exact hq _ h
+    | dq raw => simp only [argument, hk] at h; exact hq _ h
+    | semi => simp [argument, hk] at h; rw [← h.2]; exact List.suffix_refl _
+    | lbrace => simp [argument, hk] at h; rw [← h.2]; exact List.suffix_refl _
+    | rbrace => simp [argument, hk] at h; rw [← h.2]; exact List.suffix_refl _
+
+theorem stmt_stmts_suffix (text : List Char) : ∀ (g : Nat),
+    (∀ ts s rest, stmt text g ts = some (s, rest) → rest <:+ ts ∧ rest.length + 2 ≤ ts.length) ∧
+    (∀ ts ss rest, stmts text g ts = some (ss, rest) → rest <:+ ts) := by
+  intro g
+  induction g with
+  | zero =>
+    constructor
+    · intro ts s rest h; simp [stmt] at h
+    · intro ts ss rest h; simp [stmts] at h
+  | succ g ih =>
+    obtain ⟨ih1, ih2⟩ := ih
+    constructor
+    · intro ts s rest h
+      cases ts with
+      | nil => simp [stmt] at h
+      | cons k ts' =>
+        unfold stmt at h
+        split at h
+        · split at h
+          · cases h
+          · rename_i arg r1 harg
+            have hsx := argument_suffix text _ ts' arg r1 harg
+            have hl := hsx.length_le
+            split at h
+            · rename_i e r2
+              split at h
+              · simp only [Option.some.injEq, Prod.mk.injEq] at h
+                rw [← h.2]
+                refine ⟨(List.suffix_cons e r2).trans (hsx.trans (List.suffix_cons k ts')), ?_⟩
+                simp only [List.length_cons] at hl ⊢; omega
+              · split at h
+                · split at h
+                  · rename_i subs c r3 hs
+                    split at h
+                    · simp only [Option.some.injEq, Prod.mk.injEq] at h
+                      have hs3 := ih2 _ _ _ hs
+                      have := hs3.length_le
+                      rw [← h.2]
+                      refine ⟨(List.suffix_cons c r3).trans (hs3.trans ((List.suffix_cons e r2).trans
+                        (hsx.trans (List.suffix_cons k ts')))), ?_⟩
+                      simp only [List.length_cons] at hl this ⊢; omega
+                    · cases h
+                  · cases h
+                · cases h
+            · cases h
+        · cases h
+    · intro ts ss rest h
+      cases ts with
+      | nil => simp [stmts] at h; rw [← h.2]; exact List.suffix_refl _
+      | cons t ts' =>
+        by_cases hr : t.tok = .rbrace
+        · rw [stmts_rbrace text g t ts' hr] at h
+          simp only [Option.some.injEq, Prod.mk.injEq] at h
+          rw [← h.2]; exact List.suffix_refl _
+        · cases hs : stmt text g (t :: ts') with
+          | none => rw [stmts_cons_none text g t ts' hr hs] at h; cases h
+          | some sr =>
+            obtain ⟨s, r⟩ := sr
+            cases hss : stmts text g r with
+            | none => rw [stmts_cons_none2 text g t ts' hr s r hs hss] at h; cases h
+            | some ssr =>
+              obtain ⟨ss', r'⟩ := ssr
+              rw [stmts_cons_some text g t ts' hr s r hs ss' r' hss] at h
+              simp only [Option.some.injEq, Prod.mk.injEq] at h
+              have h1 := (ih1 _ _ _ hs).1
+              have h2 := ih2 _ _ _ hss
+              rw [← h.2]; exact h2.trans h1
+
+/-! ## (c) statements and blocks -/
+
+/-- what `nextStatement` does before a token that starts a statement -/
+def StmtPost (text : List Char) (file : List UInt8) (g : Nat) (ts : List PTok) (p : P) (r : NS × P) : Prop :=
+  (∃ s rest, stmt text g ts = some (s, rest) ∧ r.1 = .stmt (encStmt file s) ∧ At text file r.2 rest ∧
+      r.2.depth = p.depth ∧ r.2.src.tail = p.src.tail) ∨
+  (Bad r.2 ∧ stmt text g ts = none) ∨
+  (r.1 = .eof ∧ r.2.src.errs = [] ∧ r.2.fault = .none ∧ r.2.src.tail = none ∧ p.depth + 1 ≤ r.2.depth ∧
+      stmt text g ts = none ∧ p.src.tail = none)
+
+/-- what the loop after `{` does -/
+def BlockPost (text : List Char) (file : List UInt8) (g : Nat) (ts : List PTok) (acc : List Statement) (p : P)
+    (r : Option (List Statement) × P) : Prop :=
+  (∃ ss c rest, stmts text g ts = some (ss, c :: rest) ∧ c.tok = .rbrace ∧
+      r.1 = some (acc ++ encStmts file ss) ∧ At text file r.2 rest ∧ r.2.depth = p.depth - 1 ∧
+      r.2.src.tail = p.src.tail) ∨
+  (Bad r.2 ∧ (stmts text g ts = none ∨ ∃ ss, stmts text g ts = some (ss, []))) ∨
+  (r.1 = none ∧ r.2.src.errs = [] ∧ r.2.fault = .none ∧ r.2.src.tail = none ∧ p.depth ≤ r.2.depth ∧
+      (stmts text g ts = none ∨ ∃ ss, stmts text g ts = some (ss, [])) ∧ p.src.tail = none)
+
+theorem nextStatement_nil (text : List Char) (file : List UInt8) (f : Nat) (p : P) (hat : At text file p []) :
+    (nextStatement LS (f + 1) p).1 = .eof ∧
+    (p.src.tail ≠ none → Bad (nextStatement LS (f + 1) p).2) ∧
+    (p.src.tail = none → At text file (nextStatement LS (f + 1) p).2 [] ∧
+      (nextStatement LS (f + 1) p).2.src.tail = none ∧ (nextStatement LS (f + 1) p).2.depth = p.depth) := by
+  unfold nextStatement
+  simp only
+  obtain ⟨n1, n2, n3⟩ := next_nil text file false f p hat
+  rw [n1]
+  exact ⟨rfl, n2, n3⟩
+
+theorem nextStatement_rbrace (text : List Char) (file : List UInt8) (f : Nat) (p : P) (t : PTok) (ts : List PTok)
+    (hat : At text file p (t :: ts)) (ht : t.tok = .rbrace) :
+    (nextStatement LS (f + 1) p).1 = .brace file (lineOf text t.off) (colOf text t.off) ∧
+    At text file (nextStatement LS (f + 1) p).2 ts ∧
+    (nextStatement LS (f + 1) p).2.depth = p.depth - 1 ∧
+    (nextStatement LS (f + 1) p).2.src.tail = p.src.tail := by
+  unfold nextStatement
+  simp only
+  obtain ⟨n1, n2, n3, n4⟩ := next_plain text file false f p t ts hat (by rw [ht]; rfl)
+  rw [n1]
+  simp only
+  rw [if_pos (by rw [conv_code, ht]; rfl)]
+  refine ⟨rfl, ⟨n2.stack, n2.toks, n2.clean, n2.fault, n2.text, n2.file⟩, ?_, n3⟩
+  show (next LS false f p).2.depth - 1 = _
+  rw [n4]
+
+theorem mkStmt_enc (text : List Char) (file : List UInt8) (k : PTok) (kw : List Char) (hk : k.tok = .unq kw)
+    (arg : Option (List Char)) (subs : List Stmt) :
+    mkStmt (conv text file k) (arg.isSome, encodeChars (arg.getD [])) (encStmts file subs) =
+      encStmt file { keyword := kw, arg := arg, line := lineOf text k.off, col := colOf text k.off, subs := subs } := by
+  simp [mkStmt, encStmt, conv, tokText, hk]
+
+theorem stmt_block_spec (text : List Char) (file : List UInt8) : ∀ (n : Nat),
+    (∀ (ts : List PTok), ts.length ≤ n → ∀ (t : PTok) (ts' : List PTok), ts = t :: ts' → t.tok ≠ .rbrace →
+      ∀ (f g : Nat) (p : P), At text file p ts → ts.length + 1 ≤ f → ts.length ≤ g → (∀ x ∈ ts, okTok x) →
+      StmtPost text file g ts p (nextStatement LS f p)) ∧
+    (∀ (ts : List PTok), ts.length ≤ n →
+      ∀ (f g : Nat) (acc : List Statement) (p : P), At text file p ts → ts.length + 2 ≤ f → ts.length + 1 ≤ g →
+      (∀ x ∈ ts, okTok x) → BlockPost text file g ts acc p (blockLoop LS f acc p)) := by
+  intro n
+  induction n using Nat.strongRecOn with
+  | _ n ih =>
+    -- statements first
+    have hstmt : ∀ (ts : List PTok), ts.length ≤ n → ∀ (t : PTok) (ts' : List PTok), ts = t :: ts' →
+        t.tok ≠ .rbrace → ∀ (f g : Nat) (p : P), At text file p ts → ts.length + 1 ≤ f → ts.length ≤ g →
+        (∀ x ∈ ts, okTok x) → StmtPost text file g ts p (nextStatement LS f p) := by
+      intro ts hn t ts' hts hnr f g p hat hf hg hadm
+      subst hts
+      obtain ⟨f, rfl⟩ : ∃ f', f = f' + 1 := ⟨f - 1, by omega⟩
+      obtain ⟨g, rfl⟩ : ∃ g', g = g' + 1 := ⟨g - 1, by simp only [List.length_cons] at hg; omega⟩
+      simp only [List.length_cons] at hf hg hn
+      unfold nextStatement
+      simp only
+      cases hq : t.tok.isQuoted with
+      | true =>
+        -- a quoted string where a keyword must stand
+        obtain ⟨T, n1, n2, _⟩ := next_quoted text file false f p t ts' hat hq (by omega) hadm
+        rw [n1]
+        simp only
+        rw [if_neg (by rw [n2]; simp), if_pos (by rw [n2]; simp)]
+        right; left
+        refine ⟨addErr_bad _ _, stmt_not_unq text _ t ts' ?_⟩
+        intro kw hk; rw [hk] at hq; cases hq
+      | false =>
+        obtain ⟨n1, n2, n3, n4⟩ := next_plain text file false f p t ts' hat hq
+        rw [n1]
+        simp only
+        rw [if_neg (by rw [conv_code]; intro h; exact hnr ((tokCode_rbrace _).1 h))]
+        by_cases hunq : (conv text file t).code = Code.unquoted
+        · rw [if_neg (by simp [hunq])]
+          obtain ⟨kw, hk⟩ := (tokCode_unquoted t.tok).1 hunq
+          have hb : decide ((conv text file t).text = Model.Parse.patternKw) = decide (kw = Spec.Parse.patternKw) := by
+            simp only [conv, tokText, hk]; exact patternKw_iff kw
+          have hadm' : ∀ x ∈ ts', okTok x := fun x hx => hadm x (by simp [hx])
+          rcases fetchArg_spec text file (conv text file t) _ hb f _ ts' n2 (by omega) hadm' with
+            ⟨arg, e, rest, harg, hterm, ha1, ha2, ha3, ha4, ha5⟩ | ⟨hbad, hsf⟩ | ⟨hsf, hnone⟩
+          · rw [ha2]
+            simp only
+            have hsx := argument_suffix text _ ts' arg _ harg
+            have hrl := hsx.length_le
+            simp only [List.length_cons] at hrl
+            rcases hterm with he | he
+            · -- `;`
+              rw [if_pos (by rw [conv_code, he]; rfl)]
+              left
+              refine ⟨_, rest, stmt_semi text g t kw ts' hk arg e rest harg he, ?_, ha3, ha4.trans n4, ha5.trans n3⟩
+              rw [ha1]
+              exact congrArg NS.stmt (mkStmt_enc text file t kw hk arg [])
+            · -- `{`
+              rw [if_neg (by rw [conv_code, he]; simp [tokCode]), if_pos (by rw [conv_code, he]; rfl)]
+              have hatb : At text file (setDepth ((fetchArg LS (conv text file t) f (next LS false f p).2).2.2.depth + 1)
+                  (fetchArg LS (conv text file t) f (next LS false f p).2).2.2) rest :=
+                ⟨ha3.stack, ha3.toks, ha3.clean, ha3.fault, ha3.text, ha3.file⟩
+              have hblk := (ih rest.length (by omega)).2 rest (Nat.le_refl _) f g []
+                (setDepth ((fetchArg LS (conv text file t) f (next LS false f p).2).2.2.depth + 1)
+                  (fetchArg LS (conv text file t) f (next LS false f p).2).2.2) hatb (by omega) (by omega)
+                (fun x hx => hadm' x (List.IsSuffix.mem hx ((List.suffix_cons e rest).trans hsx)))
+              rcases hblk with ⟨ss, c, rest', hss, hc, hr1, hr2, hr3, hr4⟩ | ⟨hbad, hsp⟩ |
+                ⟨hr1, hr2, hr3, hr4, hr5, hsp, hr6⟩
+              · rw [hr1]
+                simp only
+                left
+                refine ⟨_, rest', stmt_block_some text g t kw ts' hk arg e rest harg he ss c rest' hss hc, ?_, hr2, ?_,
+                  hr4.trans (ha5.trans n3)⟩
+                · rw [ha1, List.nil_append]
+                  exact congrArg NS.stmt (mkStmt_enc text file t kw hk arg ss)
+                · rw [hr3]
+                  show (fetchArg LS (conv text file t) f (next LS false f p).2).2.2.depth + 1 - 1 = p.depth
+                  rw [ha4, n4]; omega
+              · right; left
+                refine ⟨?_, stmt_block_fail text g t kw ts' hk arg e rest harg he hsp⟩
+                split <;> exact hbad
+              · rw [hr1]
+                simp only
+                right; right
+                refine ⟨rfl, hr2, hr3, hr4, ?_, stmt_block_fail text g t kw ts' hk arg e rest harg he hsp,
+                  (n3.symm.trans (ha5.symm.trans hr6))⟩
+                have : (setDepth ((fetchArg LS (conv text file t) f (next LS false f p).2).2.2.depth + 1)
+                  (fetchArg LS (conv text file t) f (next LS false f p).2).2.2).depth = p.depth + 1 := by
+                  show (fetchArg LS (conv text file t) f (next LS false f p).2).2.2.depth + 1 = p.depth + 1
+                  rw [ha4, n4]
+                rw [this] at hr5
+                exact hr5
+          · -- an error has been written while the argument was read
+            right; left
+            refine ⟨?_, stmt_fail text _ t kw ts' hk hsf⟩
+            split
+            · exact addErr_bad _ _
+            · split
+              · exact hbad
+              · split
+                · have h3 := (stmt_block_bad f).2 [] _ (show Bad (setDepth
+                      ((fetchArg LS (conv text file t) f (next LS false f p).2).2.2.depth + 1)
+                      (fetchArg LS (conv text file t) f (next LS false f p).2).2.2) from hbad)
+                  split <;> exact h3
+                · exact addErr_bad _ _
+          · -- neither `;` nor `{` follows
+            right; left
+            refine ⟨?_, stmt_fail text _ t kw ts' hk hsf⟩
+            rcases hnone with hn | ⟨T, hT, h59, h123⟩
+            · rw [hn]
+              exact addErr_bad _ _
+            · rw [hT]
+              simp only
+              rw [if_neg h59, if_neg h123]
+              exact addErr_bad _ _
+        · -- `;` or `{` where a keyword must stand
+          rw [if_pos (by simpa using hunq)]
+          right; left
+          refine ⟨addErr_bad _ _, stmt_not_unq text _ t ts' ?_⟩
+          intro kw hk
+          apply hunq
+          rw [conv_code, hk]; rfl
+    refine ⟨hstmt, ?_⟩
+    -- the loop after `{`
+    intro ts hn f g acc p hat hf hg hadm
+    obtain ⟨f, rfl⟩ : ∃ f', f = f' + 1 := ⟨f - 1, by omega⟩
+    obtain ⟨g, rfl⟩ : ∃ g', g = g' + 1 := ⟨g - 1, by omega⟩
+    unfold blockLoop
+    simp only
+    cases ts with
+    | nil =>
+      obtain ⟨f, rfl⟩ : ∃ f', f = f' + 1 := ⟨f - 1, by simp only [List.length_nil] at hf; omega⟩
+      obtain ⟨n1, n2, n3⟩ := nextStatement_nil text file f p hat
+      rw [n1]
+      simp only
+      cases htail : p.src.tail with
+      | none =>
+        right; right
+        obtain ⟨m1, m2, m3⟩ := n3 htail
+        exact ⟨rfl, m1.clean, m1.fault, m2, by rw [m3]; exact Int.le_refl _, Or.inr ⟨[], stmts_nil text g⟩, htail⟩
+      | some e =>
+        right; left
+        exact ⟨n2 (by rw [htail]; simp), Or.inr ⟨[], stmts_nil text g⟩⟩
+    | cons t ts' =>
+      simp only [List.length_cons] at hf hg hn
+      by_cases hr : t.tok = .rbrace
+      · obtain ⟨f, rfl⟩ : ∃ f', f = f' + 1 := ⟨f - 1, by omega⟩
+        obtain ⟨n1, n2, n3, n4⟩ := nextStatement_rbrace text file f p t ts' hat hr
+        rw [n1]
+        simp only
+        left
+        exact ⟨[], t, ts', stmts_rbrace text g t ts' hr, hr, by simp [encStmts], n2, n3, n4⟩
+      · have hs := hstmt (t :: ts') (by simp only [List.length_cons]; omega) t ts' rfl hr f g p hat
+          (by simp only [List.length_cons]; omega) (by simp only [List.length_cons]; omega) hadm
+        rcases hs with ⟨s, rest, hsp, h1, h2, h3, h4⟩ | ⟨hbad, hsp⟩ | ⟨h1, h2, h3, h4, h5, hsp, h6⟩
+        · rw [h1]
+          simp only
+          obtain ⟨hsx, hlen⟩ := (stmt_stmts_suffix text g).1 _ _ _ hsp
+          simp only [List.length_cons] at hlen
+          have hblk := (ih rest.length (by omega)).2 rest (Nat.le_refl _) f g (acc ++ [encStmt file s])
+            (nextStatement LS f p).2 h2 (by omega) (by omega) (fun x hx => hadm x (List.IsSuffix.mem hx hsx))
+          rcases hblk with ⟨ss, c, rest', hss, hc, hr1, hr2, hr3, hr4⟩ | ⟨hbad, hsp'⟩ |
+            ⟨hr1, hr2, hr3, hr4, hr5, hsp', hr6⟩
+          · left
+            refine ⟨s :: ss, c, rest', stmts_cons_some text g t ts' hr s rest hsp ss _ hss, hc, ?_, hr2, ?_,
+              hr4.trans h4⟩
+            · rw [hr1]; simp [encStmts]
+            · rw [hr3, h3]
+          · right; left
+            refine ⟨hbad, ?_⟩
+            rcases hsp' with h | ⟨ss, h⟩
+            · exact Or.inl (stmts_cons_none2 text g t ts' hr s rest hsp h)
+            · exact Or.inr ⟨s :: ss, stmts_cons_some text g t ts' hr s rest hsp ss _ h⟩
+          · right; right
+            refine ⟨hr1, hr2, hr3, hr4, by rw [← h3]; exact hr5, ?_, h4.symm.trans hr6⟩
+            rcases hsp' with h | ⟨ss, h⟩
+            · exact Or.inl (stmts_cons_none2 text g t ts' hr s rest hsp h)
+            · exact Or.inr ⟨s :: ss, stmts_cons_some text g t ts' hr s rest hsp ss _ h⟩
+        · right; left
+          refine ⟨?_, Or.inl (stmts_cons_none text g t ts' hr hsp)⟩
+          split
+          · exact hbad
+          · exact hbad
+          · exact (stmt_block_bad f).2 _ _ hbad
+        · rw [h1]
+          simp only
+          right; right
+          exact ⟨rfl, h2, h3, h4, by simp only; omega, Or.inl (stmts_cons_none text g t ts' hr hsp), h6⟩
 
 end Goyang.Lemmas.ListSrc
